@@ -96,6 +96,13 @@ func (u *Unit) loopEnter(st *State, lp *Loop) {
 		env.pre = st.snapshot()
 		u.addOblig(st, tag+".inv."+labelOr(c, "inv")+".entry", c.Text, clauseProps(c, fs), u.evalBool(env, c.Expr), first, "loop invariant holds on entry: "+c.Text)
 	}
+	var owned []string
+	if fs != nil {
+		owned = fs.LoopOwned[lp.index]
+	}
+	for _, name := range owned {
+		u.checkOwned(st, name, tag+".owned."+name+".entry", first)
+	}
 	eff := u.effectsOfBlocks(lp.fn, lp.blocks, map[*ssa.Function]bool{})
 	// cells
 	var roots []ssa.Value
@@ -205,6 +212,25 @@ func (u *Unit) loopEnter(st *State, lp *Loop) {
 			}
 		}
 	}
+	for _, name := range owned {
+		// after the havoc the variable holds some slice whose backing array is
+		// private (or nil): give that array a name and keep it private
+		env := u.newEnv(st)
+		if c, ok := u.lookupName(env, name); ok {
+			if cur, ok := st.cells[c].(T); ok && cur.Sort == SSlice {
+				a := u.fresh("owned."+name, SInt)
+				al := u.heapGet(st.view(), "alloc", ArrSort(SInt, SBool))
+				st.assume(Or(Eq(app(SInt, "sarr", cur), IntLit(0)), And(Eq(app(SInt, "sarr", cur), a), Select(al, a))))
+				for _, p := range st.private {
+					st.assume(Neq(a, p.ref))
+				}
+				u.sliceArr[cur.S] = a.S
+				if st2, isSl := c.typ.Underlying().(*types.Slice); isSl {
+					st.private = append(st.private, privRef{a, "arr:" + string(u.sortOf(st2.Elem()))})
+				}
+			}
+		}
+	}
 	for _, c := range inv {
 		env := u.newEnv(st)
 		env.pre = pre
@@ -241,6 +267,11 @@ func (u *Unit) loopBackEdge(st *State, lp *Loop) {
 	for _, c := range iter {
 		u.addOblig(st, tag+".iter."+labelOr(c, "iter"), c.Text, clauseProps(c, fs), u.evalBool(env, c.Expr), first, "per-iteration postcondition: "+c.Text)
 	}
+	if fs != nil {
+		for _, name := range fs.LoopOwned[lp.index] {
+			u.checkOwned(st, name, tag+".owned."+name+".preserve", first)
+		}
+	}
 	okTok := True
 	for k, v := range st.tokens {
 		if lc.headTokens[k] != v {
@@ -255,4 +286,17 @@ func (u *Unit) loopBackEdge(st *State, lp *Loop) {
 		okLock = False
 	}
 	u.addOblig(st, tag+".lockset", "", u.propsFor("C03"), okLock, first, "lockset is the same at every loop iteration boundary")
+}
+
+// checkOwned: the named slice variable is nil or backed by a private array
+// (decided syntactically from how the engine built the value).
+func (u *Unit) checkOwned(st *State, name, oblig string, at ssa.Instruction) {
+	env := u.newEnv(st)
+	goal := False
+	if c, ok := u.lookupName(env, name); ok {
+		if cur, ok := st.cells[c].(T); ok && u.isPrivateArr(st, cur) {
+			goal = True
+		}
+	}
+	u.addOblig(st, oblig, "", nil, goal, at, "slice variable "+name+" is nil or backed by an array that is private to this activation (only ever assigned from append on itself)")
 }
